@@ -1,0 +1,468 @@
+//go:build verif
+
+// Contracts for deductive verification (comment-only; no declarations). Checked by
+// /verif/govc against the code of this package on every run. See /verif/DESIGN.md.
+
+package saml2
+
+// ---------------------------------------------------------------------------
+// Profile predicates (transcribed from the property statements C03, C05, C10)
+// ---------------------------------------------------------------------------
+
+//@ pure func IssuerOK(sp *SAMLServiceProvider, i *types.Issuer) bool {
+//@   return i != nil && (sp.IdentityProviderIssuer == "" || i.Value == sp.IdentityProviderIssuer)
+//@ }
+//@ pure func DestOK(d string, expected string) bool {
+//@   return d == "" || d == expected
+//@ }
+//@ pure func StatusOK(s *types.Status) bool {
+//@   return s != nil && s.StatusCode != nil && s.StatusCode.Value == StatusCodeSuccess
+//@ }
+
+// ---------------------------------------------------------------------------
+// validate.go
+// ---------------------------------------------------------------------------
+
+//@ pure func CondWellFormed(c *types.Conditions) bool {
+//@   return c != nil && c.NotBefore != "" && parseOK(c.NotBefore) && c.NotOnOrAfter != "" && parseOK(c.NotOnOrAfter)
+//@ }
+//@ pure func RestrictionMatches(ar types.AudienceRestriction, uri string) bool {
+//@   return exists u int :: 0 <= u && u < len(ar.Audiences) && ar.Audiences[u].Value == uri
+//@ }
+
+//@ func (sp *SAMLServiceProvider) VerifyAssertionConditions(assertion *types.Assertion) (w *WarningInfo, err error)
+//@   requires sp != nil && assertion != nil
+//@   safety [C09]
+//@   frame [C17]
+//@   assigns nothing
+//@   ensures [C05] wellformed: err == nil <==> CondWellFormed(assertion.Conditions)
+//@   ensures [C05] xor: (w != nil) != (err != nil)
+//@   ensures [C05] errkind: err != nil ==>
+//@        (assertion.Conditions == nil && err == ErrMissingElement{Tag: ConditionsTag})
+//@     || (assertion.Conditions != nil && assertion.Conditions.NotBefore == "" && err == ErrMissingElement{Tag: ConditionsTag, Attribute: NotBeforeAttr})
+//@     || (assertion.Conditions != nil && !parseOK(assertion.Conditions.NotBefore) && err is ErrParsing && ErrParsing(err).Tag == NotBeforeAttr)
+//@     || (assertion.Conditions != nil && assertion.Conditions.NotOnOrAfter == "" && err == ErrMissingElement{Tag: ConditionsTag, Attribute: NotOnOrAfterAttr})
+//@     || (assertion.Conditions != nil && !parseOK(assertion.Conditions.NotOnOrAfter) && err is ErrParsing && ErrParsing(err).Tag == NotOnOrAfterAttr)
+//@   ensures [C05] window: err == nil ==> (w.InvalidTime <==>
+//@        now(sp.Clock) < instantOf(assertion.Conditions.NotBefore) || now(sp.Clock) >= instantOf(assertion.Conditions.NotOnOrAfter))
+//@   ensures [C06] audience: err == nil ==> (w.NotInAudience <==>
+//@        exists r int :: 0 <= r && r < len(assertion.Conditions.AudienceRestrictions)
+//@                        && !RestrictionMatches(assertion.Conditions.AudienceRestrictions[r], sp.AudienceURI))
+//@   ensures [C06] onetime: err == nil ==> (w.OneTimeUse <==> assertion.Conditions.OneTimeUse != nil)
+//@   ensures [C06] proxy.presence: err == nil ==> (w.ProxyRestriction == nil <==> assertion.Conditions.ProxyRestriction == nil)
+//@   ensures [C06] proxy.count: err == nil && assertion.Conditions.ProxyRestriction != nil ==>
+//@        w.ProxyRestriction.Count == assertion.Conditions.ProxyRestriction.Count
+//@   ensures [C06] proxy.len: err == nil && assertion.Conditions.ProxyRestriction != nil ==>
+//@        len(w.ProxyRestriction.Audience) == len(assertion.Conditions.ProxyRestriction.Audience)
+//@   ensures [C06] proxy.values: err == nil && assertion.Conditions.ProxyRestriction != nil ==>
+//@        forall m int :: 0 <= m && m < len(assertion.Conditions.ProxyRestriction.Audience) ==>
+//@            w.ProxyRestriction.Audience[m] == assertion.Conditions.ProxyRestriction.Audience[m].Value
+//@   loop 0
+//@     invariant [C06] noflag: !warningInfo.NotInAudience
+//@     invariant [C06] prefix: forall r int :: 0 <= r && r < $i ==> RestrictionMatches(conditions.AudienceRestrictions[r], sp.AudienceURI)
+//@   loop 1
+//@     invariant [C06] nomatch: !matched
+//@     invariant [C06] prefix: forall u int :: 0 <= u && u < $i ==> audienceRestriction.Audiences[u].Value != sp.AudienceURI
+//@   loop 2
+//@     invariant [C06] len: len(proxyRestrictionInfo.Audience) == $i
+//@     invariant [C06] values: forall m int :: 0 <= m && m < $i ==> proxyRestrictionInfo.Audience[m] == proxyRestriction.Audience[m].Value
+//@     invariant [C06] count: proxyRestrictionInfo.Count == proxyRestriction.Count
+
+// ---------------------------------------------------------------------------
+// Validate (C03, C05, C08): acceptance <==> every profile check passed, for every assertion
+// ---------------------------------------------------------------------------
+
+//@ pure func SCD(a types.Assertion) *types.SubjectConfirmationData {
+//@   return a.Subject.SubjectConfirmation.SubjectConfirmationData
+//@ }
+//@ pure func SubjectShapeOK(sp *SAMLServiceProvider, a types.Assertion) bool {
+//@   return a.Subject != nil && a.Subject.SubjectConfirmation != nil
+//@       && a.Subject.SubjectConfirmation.Method == SubjMethodBearer
+//@       && SCD(a) != nil && SCD(a).Recipient == sp.AssertionConsumerServiceURL
+//@ }
+//@ pure func NotExpired(sp *SAMLServiceProvider, a types.Assertion) bool {
+//@   return SCD(a).NotOnOrAfter != "" && parseOK(SCD(a).NotOnOrAfter) && now(sp.Clock) < instantOf(SCD(a).NotOnOrAfter)
+//@ }
+//@ pure func AssertionOK(sp *SAMLServiceProvider, a types.Assertion) bool {
+//@   return IssuerOK(sp, a.Issuer) && SubjectShapeOK(sp, a) && NotExpired(sp, a)
+//@ }
+//@ pure func ResponseAttrsOK(sp *SAMLServiceProvider, r *types.Response) bool {
+//@   return DestOK(r.Destination, sp.AssertionConsumerServiceURL) && r.Version == "2.0"
+//@ }
+//@ pure func ProfileOK(sp *SAMLServiceProvider, r *types.Response) bool {
+//@   return ResponseAttrsOK(sp, r) && len(r.Assertions) >= 1 && IssuerOK(sp, r.Issuer) && StatusOK(r.Status)
+//@       && forall k int :: 0 <= k && k < len(r.Assertions) ==> AssertionOK(sp, r.Assertions[k])
+//@ }
+// The typed error names a violated element/attribute (only type and naming fields are compared).
+//@ pure func IsMissing(err error, tag string, attr string) bool {
+//@   return err is ErrMissingElement && ErrMissingElement(err).Tag == tag && ErrMissingElement(err).Attribute == attr
+//@ }
+//@ pure func IsInvalid(err error, key string) bool {
+//@   return err is ErrInvalidValue && ErrInvalidValue(err).Key == key
+//@ }
+//@ pure func IsInvalidR(err error, key string, reason string) bool {
+//@   return err is ErrInvalidValue && ErrInvalidValue(err).Key == key && ErrInvalidValue(err).Reason == reason
+//@ }
+//@ pure func IsParsing(err error, tag string) bool {
+//@   return err is ErrParsing && ErrParsing(err).Tag == tag
+//@ }
+//@ pure func IssuerErr(sp *SAMLServiceProvider, i *types.Issuer, err error) bool {
+//@   return (i == nil && IsMissing(err, IssuerTag, ""))
+//@       || (i != nil && sp.IdentityProviderIssuer != "" && i.Value != sp.IdentityProviderIssuer && IsInvalid(err, IssuerTag))
+//@ }
+//@ pure func StatusErr(s *types.Status, err error) bool {
+//@   return (s == nil && IsMissing(err, StatusTag, ""))
+//@       || (s != nil && s.StatusCode == nil && IsMissing(err, StatusCodeTag, ""))
+//@       || (s != nil && s.StatusCode != nil && s.StatusCode.Value != StatusCodeSuccess && IsInvalid(err, StatusCodeTag))
+//@ }
+//@ pure func AttrsErr(d string, version string, expected string, err error) bool {
+//@   return (!DestOK(d, expected) && IsInvalid(err, DestinationAttr))
+//@       || (version != "2.0" && IsInvalidR(err, "SAML version", ReasonUnsupported))
+//@ }
+//@ pure func AssertionErr(sp *SAMLServiceProvider, a types.Assertion, err error) bool {
+//@   return IssuerErr(sp, a.Issuer, err)
+//@     || (a.Subject == nil && IsMissing(err, SubjectTag, ""))
+//@     || (a.Subject != nil && a.Subject.SubjectConfirmation == nil && IsMissing(err, SubjectConfirmationTag, ""))
+//@     || (a.Subject != nil && a.Subject.SubjectConfirmation != nil && a.Subject.SubjectConfirmation.Method != SubjMethodBearer
+//@            && IsInvalidR(err, SubjectConfirmationTag, ReasonUnsupported))
+//@     || (a.Subject != nil && a.Subject.SubjectConfirmation != nil && SCD(a) == nil && IsMissing(err, SubjectConfirmationDataTag, ""))
+//@     || (a.Subject != nil && a.Subject.SubjectConfirmation != nil && SCD(a) != nil
+//@          && (   (SCD(a).Recipient != sp.AssertionConsumerServiceURL && IsInvalid(err, RecipientAttr))
+//@              || (SCD(a).NotOnOrAfter == "" && IsMissing(err, SubjectConfirmationDataTag, NotOnOrAfterAttr))
+//@              || (!parseOK(SCD(a).NotOnOrAfter) && IsParsing(err, NotOnOrAfterAttr))
+//@              || (parseOK(SCD(a).NotOnOrAfter) && now(sp.Clock) >= instantOf(SCD(a).NotOnOrAfter) && IsInvalidR(err, NotOnOrAfterAttr, ReasonExpired))))
+//@ }
+
+//@ func (sp *SAMLServiceProvider) validateResponseAttributes(response *types.Response) (err error)
+//@   requires sp != nil && response != nil
+//@   safety [C09]
+//@   frame [C17]
+//@   assigns nothing
+//@   ensures [C03] iff: err == nil <==> ResponseAttrsOK(sp, response)
+//@   ensures [C03] errkind: err != nil ==> AttrsErr(response.Destination, response.Version, sp.AssertionConsumerServiceURL, err)
+
+//@ func (sp *SAMLServiceProvider) Validate(response *types.Response) (err error)
+//@   requires sp != nil && response != nil
+//@   safety [C09]
+//@   frame [C17]
+//@   assigns nothing
+//@   ensures [C03, C05, C08] iff: err == nil <==> ProfileOK(sp, response)
+//@   ensures [C03, C05] errkind: err != nil ==>
+//@        AttrsErr(response.Destination, response.Version, sp.AssertionConsumerServiceURL, err)
+//@     || (len(response.Assertions) == 0 && err == ErrMissingAssertion)
+//@     || IssuerErr(sp, response.Issuer, err)
+//@     || StatusErr(response.Status, err)
+//@     || exists k int :: 0 <= k && k < len(response.Assertions) && AssertionErr(sp, response.Assertions[k], err)
+//@   loop 0
+//@     invariant [C03, C05] prefix: forall k int :: 0 <= k && k < $i ==> AssertionOK(sp, response.Assertions[k])
+
+// ---------------------------------------------------------------------------
+// Logout message checks (C10)
+// ---------------------------------------------------------------------------
+
+//@ pure func LogoutRespOK(sp *SAMLServiceProvider, r *types.LogoutResponse) bool {
+//@   return DestOK(r.Destination, sp.ServiceProviderSLOURL) && r.Version == "2.0" && IssuerOK(sp, r.Issuer) && StatusOK(r.Status)
+//@ }
+//@ pure func LogoutReqOK(sp *SAMLServiceProvider, q *LogoutRequest) bool {
+//@   return DestOK(q.Destination, sp.ServiceProviderSLOURL) && q.Version == "2.0" && IssuerOK(sp, q.Issuer)
+//@ }
+
+//@ func (sp *SAMLServiceProvider) validateLogoutResponseAttributes(response *types.LogoutResponse) (err error)
+//@   requires sp != nil && response != nil
+//@   safety [C09]
+//@   frame [C17]
+//@   assigns nothing
+//@   ensures [C10] iff: err == nil <==> (DestOK(response.Destination, sp.ServiceProviderSLOURL) && response.Version == "2.0")
+//@   ensures [C10] errkind: err != nil ==> AttrsErr(response.Destination, response.Version, sp.ServiceProviderSLOURL, err)
+
+//@ func (sp *SAMLServiceProvider) validateLogoutRequestAttributes(request *LogoutRequest) (err error)
+//@   requires sp != nil && request != nil
+//@   safety [C09]
+//@   frame [C17]
+//@   assigns nothing
+//@   ensures [C10] iff: err == nil <==> (DestOK(request.Destination, sp.ServiceProviderSLOURL) && request.Version == "2.0")
+//@   ensures [C10] errkind: err != nil ==> AttrsErr(request.Destination, request.Version, sp.ServiceProviderSLOURL, err)
+
+//@ func (sp *SAMLServiceProvider) ValidateDecodedLogoutResponse(response *types.LogoutResponse) (err error)
+//@   requires sp != nil && response != nil
+//@   safety [C09]
+//@   frame [C17]
+//@   assigns nothing
+//@   ensures [C10] iff: err == nil <==> LogoutRespOK(sp, response)
+//@   ensures [C10] errkind: err != nil ==>
+//@        AttrsErr(response.Destination, response.Version, sp.ServiceProviderSLOURL, err)
+//@     || IssuerErr(sp, response.Issuer, err) || StatusErr(response.Status, err)
+
+//@ func (sp *SAMLServiceProvider) ValidateDecodedLogoutRequest(request *LogoutRequest) (err error)
+//@   requires sp != nil && request != nil
+//@   safety [C09]
+//@   frame [C17]
+//@   assigns nothing
+//@   ensures [C10] iff: err == nil <==> LogoutReqOK(sp, request)
+//@   ensures [C10] errkind: err != nil ==>
+//@        AttrsErr(request.Destination, request.Version, sp.ServiceProviderSLOURL, err)
+//@     || IssuerErr(sp, request.Issuer, err)
+
+// ---------------------------------------------------------------------------
+// attribute.go (C08): accessors return first value / all values in order / count; empty for absent or nil
+// ---------------------------------------------------------------------------
+
+//@ pure func HasValues(vals Values, k string) bool {
+//@   return vals != nil && has(vals, k) && len(vals[k].Values) > 0
+//@ }
+
+//@ func (vals Values) Get(k string) (result string)
+//@   safety [C09]
+//@   frame [C17]
+//@   assigns nothing
+//@   ensures [C08] first: HasValues(vals, k) ==> result == vals[k].Values[0].Value
+//@   ensures [C08] absent: !HasValues(vals, k) ==> result == ""
+
+//@ func (vals Values) GetSize(k string) (result int)
+//@   safety [C09]
+//@   frame [C17]
+//@   assigns nothing
+//@   ensures [C08] count: (vals != nil && has(vals, k)) ==> result == len(vals[k].Values)
+//@   ensures [C08] absent: !(vals != nil && has(vals, k)) ==> result == 0
+
+//@ func (vals Values) GetAll(k string) (result []string)
+//@   safety [C09]
+//@   frame [C17]
+//@   assigns nothing
+//@   ensures [C08] len: HasValues(vals, k) ==> len(result) == len(vals[k].Values)
+//@   ensures [C08] values: HasValues(vals, k) ==> forall j int :: 0 <= j && j < len(vals[k].Values) ==> result[j] == vals[k].Values[j].Value
+//@   ensures [C08] absent: !HasValues(vals, k) ==> result == nil
+//@   loop 0
+//@     invariant [C08] bound: 0 <= i && i <= len(v.Values)
+//@     invariant [C08] len: len(av) == i
+//@     invariant [C08] values: forall j int :: 0 <= j && j < i ==> av[j] == v.Values[j].Value
+
+// ---------------------------------------------------------------------------
+// decode_response.go / decode_logout_request.go: provenance (C01 C02 C04 C07 C10), totality (C09), limits (C12)
+// ---------------------------------------------------------------------------
+
+// $src: the element a decoded struct was unmarshalled from (set only through xml.Unmarshal's contract).
+//@ ghost field types.Response.$src *etree.Element
+//@ ghost field types.Assertion.$src *etree.Element
+//@ ghost field types.LogoutResponse.$src *etree.Element
+//@ ghost field LogoutRequest.$src *etree.Element
+//@ ghost field types.EncryptedAssertion.$src *etree.Element
+
+//@ func (sp *SAMLServiceProvider) validationContext() (ctx *dsig.ValidationContext)
+//@   requires sp != nil
+//@   safety [C09]
+//@   frame [C17]
+//@   assigns nothing
+//@   ensures [C02, C01] store: ctx != nil && ctx.CertificateStore == sp.IDPCertificateStore
+//@   ensures [C02] clock: ctx.Clock == sp.Clock
+//@   fresh [C02, C01, C17] ctx
+
+//@ func (sp *SAMLServiceProvider) validateElementSignature(el *etree.Element) (result *etree.Element, err error)
+//@   requires sp != nil && el != nil && sp.IDPCertificateStore != nil
+//@   safety [C09]
+//@   frame [C17]
+//@   assigns nothing
+//@   fresh result when err == nil
+//@   ensures [C02, C01] good: err == nil <==> sigState(el, sp.IDPCertificateStore, sp.Clock) == 1
+//@   ensures [C02, C01] missing: err == dsig.ErrMissingSignature <==> sigState(el, sp.IDPCertificateStore, sp.Clock) == 0
+//@   ensures [C02, C01, C04] verified: err == nil ==> result != nil && Verified(result, sp.IDPCertificateStore, sp.Clock) && validatedFrom(result) == el && result.parent != nil
+//@   ensures [C09] xor: err != nil ==> result == nil
+
+//@ func xmlUnmarshalElement(el *etree.Element, obj any) (err error)
+//@   requires el != nil && !(obj is *etree.Element) && !(obj is *etree.Document)
+//@   requires [C01, C04] zero.response: obj is *types.Response ==> *obj.(*types.Response) == types.Response{}
+//@   requires [C01, C04] zero.assertion: obj is *types.Assertion ==> *obj.(*types.Assertion) == types.Assertion{}
+//@   requires [C10, C04] zero.logoutresponse: obj is *types.LogoutResponse ==> *obj.(*types.LogoutResponse) == types.LogoutResponse{}
+//@   requires [C10, C04] zero.logoutrequest: obj is *LogoutRequest ==> *obj.(*LogoutRequest) == LogoutRequest{}
+//@   requires [C07] zero.encrypted: obj is *types.EncryptedAssertion ==> *obj.(*types.EncryptedAssertion) == types.EncryptedAssertion{}
+//@   safety [C09]
+//@   assigns *obj, el.parent.Child, el.parent, el.index
+//@   ensures [C01, C04] src.response: err == nil && obj is *types.Response ==> obj.(*types.Response).$src == el
+//@   ensures [C01, C04] src.assertion: err == nil && obj is *types.Assertion ==> obj.(*types.Assertion).$src == el
+//@   ensures [C10, C04] src.logoutresponse: err == nil && obj is *types.LogoutResponse ==> obj.(*types.LogoutResponse).$src == el
+//@   ensures [C10, C04] src.logoutrequest: err == nil && obj is *LogoutRequest ==> obj.(*LogoutRequest).$src == el
+//@   ensures [C07] src.encrypted: err == nil && obj is *types.EncryptedAssertion ==> obj.(*types.EncryptedAssertion).$src == el
+//@   ensures [C04] flag.response: obj is *types.Response ==> !obj.(*types.Response).SignatureValidated
+//@   ensures [C04] flag.assertions: obj is *types.Response ==> forall k int :: 0 <= k && k < len(obj.(*types.Response).Assertions) ==> !obj.(*types.Response).Assertions[k].SignatureValidated
+//@   ensures [C04] flag.assertion: obj is *types.Assertion ==> !obj.(*types.Assertion).SignatureValidated
+//@   ensures [C04] flag.logoutresponse: obj is *types.LogoutResponse ==> !obj.(*types.LogoutResponse).SignatureValidated
+//@   ensures [C04] flag.logoutrequest: obj is *LogoutRequest ==> !obj.(*LogoutRequest).SignatureValidated
+//@   ensures [C09] rooted: el.parent != nil
+//@   ensures [C01, C02] nosentinel: err != etreeutils.ErrTraversalHalted && err != dsig.ErrMissingSignature
+
+//@ pure func EffLimit(maxSize int64) int64 {
+//@   return maxSize == 0 ? 5242880 : maxSize
+//@ }
+//@ pure func ReadLimit(maxSize int64) int64 {
+//@   return EffLimit(maxSize) < 9223372036854775807 ? EffLimit(maxSize) + 1 : EffLimit(maxSize)
+//@ }
+//@ pure func Inflated(data []byte, maxSize int64) io.Reader {
+//@   return limited(flateOf(bytesReader(data)), ReadLimit(maxSize))
+//@ }
+
+// maybeDeflate (C12): raw first; otherwise inflate at most limit+1 bytes, reject above the limit,
+// and run the same decoder on the inflated bytes. apply(decoder, b) is the decoder's verdict on b.
+//@ func maybeDeflate(data []byte, maxSize int64, decoder func([]byte) error) (err error)
+//@   requires decoder != nil && maxSize >= 0
+//@   inline
+//@   safety [C09]
+//@   ensures [C12] raw: apply(decoder, data) == nil ==> err == nil
+//@   ensures [C12] readerr: apply(decoder, data) != nil && readAllErr(Inflated(data, maxSize)) ==> err != nil
+//@   ensures [C12] overlimit: apply(decoder, data) != nil && !readAllErr(Inflated(data, maxSize))
+//@        && len(readAllOf(Inflated(data, maxSize))) > EffLimit(maxSize) ==> err != nil
+//@   ensures [C12] within: apply(decoder, data) != nil && !readAllErr(Inflated(data, maxSize))
+//@        && len(readAllOf(Inflated(data, maxSize))) <= EffLimit(maxSize) ==> err == apply(decoder, readAllOf(Inflated(data, maxSize)))
+
+//@ func parseResponse(xml []byte, maxSize int64) (doc *etree.Document, el *etree.Element, err error)
+//@   requires maxSize >= 0
+//@   safety [C09]
+//@   fresh [C09] doc when err == nil
+//@   ensures [C09] ok: err == nil ==> doc != nil && el != nil && el == doc.$root && el.parent != nil
+//@   ensures [C09] fail: err != nil ==> doc == nil && el == nil
+//@   ensures [C01, C12] roundtrip: err == nil ==> RoundTripStable(doc.$bytes)
+//@   ensures [C12] source: err == nil ==> doc.$bytes == xml || doc.$bytes == readAllOf(Inflated(xml, maxSize))
+//@   ensures [C12] limit: err == nil && doc.$bytes != xml ==> len(doc.$bytes) <= EffLimit(maxSize)
+
+// ---------------------------------------------------------------------------
+// Decryption key selection (C07 C11 C19) and decryptAssertions (C07 C09)
+// ---------------------------------------------------------------------------
+
+// Configuration invariant sp.valid(): a key store installed through a setter has a non-nil signer
+// (the setters are the only writers of the override fields), and no key store holds a typed-nil RSA key.
+// (KeyOK is defined in types/contracts_verif.go.)
+//@ pure func SPValid(sp *SAMLServiceProvider) bool {
+//@   return sp != nil && sp.MaximumDecompressedBodySize >= 0
+//@       && (sp.spKeyStoreOverride != nil ==> sp.spKeyStoreOverride.Signer != nil && KeyOK(sp.spKeyStoreOverride.Signer))
+//@       && (sp.spSigningKeyStoreOverride != nil ==> sp.spSigningKeyStoreOverride.Signer != nil)
+//@       && (sp.SPKeyStore is dsig.TLSCertKeyStore ==> KeyOK(sp.SPKeyStore.(dsig.TLSCertKeyStore).PrivateKey))
+//@       && (sp.SPKeyStore != nil ==> kpKey(sp.SPKeyStore) != nil || kpErr(sp.SPKeyStore) != nil)
+//@ }
+//@ pure func HasDecryptKey(sp *SAMLServiceProvider) bool {
+//@   return sp.spKeyStoreOverride != nil || sp.SPKeyStore != nil
+//@ }
+//@ pure func CertWindowOK(sp *SAMLServiceProvider, der []byte) bool {
+//@   return x509ok(der) && x509NotBefore(der) <= now(sp.Clock) && now(sp.Clock) <= x509NotAfter(der)
+//@ }
+
+//@ func (sp *SAMLServiceProvider) getDecryptCert() (cert *tls.Certificate, err error)
+//@   requires SPValid(sp)
+//@   safety [C09]
+//@   frame [C17]
+//@   assigns nothing
+//@   fresh [C09] cert when err == nil
+//@   ensures [C09] xor: (cert != nil) != (err != nil)
+//@   ensures [C09] keyok: err == nil ==> KeyOK(cert.PrivateKey)
+//@   ensures [C11, C19] nokey: !HasDecryptKey(sp) ==> err != nil
+//@   ensures [C11, C19] setter: err == nil && sp.spKeyStoreOverride != nil ==>
+//@        cert.PrivateKey == sp.spKeyStoreOverride.Signer && len(cert.Certificate) == 1 && cert.Certificate[0] == sp.spKeyStoreOverride.Cert
+//@   ensures [C11, C19] field.tls: err == nil && sp.spKeyStoreOverride == nil && sp.SPKeyStore is dsig.TLSCertKeyStore ==>
+//@        cert.PrivateKey == sp.SPKeyStore.(dsig.TLSCertKeyStore).PrivateKey && cert.Certificate == sp.SPKeyStore.(dsig.TLSCertKeyStore).Certificate
+//@   ensures [C11, C19] field.pair: err == nil && sp.spKeyStoreOverride == nil && !(sp.SPKeyStore is dsig.TLSCertKeyStore) ==>
+//@        cert.PrivateKey == kpKey(sp.SPKeyStore) && len(cert.Certificate) == 1 && cert.Certificate[0] == kpCert(sp.SPKeyStore)
+//@   ensures [C07] window: err == nil && sp.ValidateEncryptionCert ==>
+//@        len(cert.Certificate) >= 1 && len(cert.Certificate[0]) >= 1 && CertWindowOK(sp, cert.Certificate[0])
+//@   ensures [C07, C11] novalidation: !sp.ValidateEncryptionCert && sp.spKeyStoreOverride != nil ==> err == nil
+//@   ensures [C07, C11] novalidation.field: !sp.ValidateEncryptionCert && sp.spKeyStoreOverride == nil && sp.SPKeyStore != nil
+//@        && (sp.SPKeyStore is dsig.TLSCertKeyStore || kpErr(sp.SPKeyStore) == nil) ==> err == nil
+
+// decryptAssertions replaces every EncryptedAssertion that is a direct child of el by the parse of its
+// plaintext. It confers no trust: nothing it adds is marked verified (Verified comes only from Validate).
+//@ func (sp *SAMLServiceProvider) decryptAssertions(el *etree.Element) (err error)
+//@   requires SPValid(sp) && el != nil && el.parent != nil
+//@   safety [C09]
+//@   assigns all etree.Element.Child, all etree.Element.parent, all etree.Element.index, all etree.Document.$root
+//@   iter 0
+//@     invariant [C09] certok: decryptCert != nil ==> KeyOK(decryptCert.PrivateKey)
+//@     invariant [C09] rooted: el.parent != nil
+//@     visit [C07] direct: old($m.parent) == el
+
+// ---------------------------------------------------------------------------
+// Inbound entry points
+// ---------------------------------------------------------------------------
+
+// Entry-point configuration: a certificate store is supplied (C09's own wording); everything else may be nil/empty.
+//@ pure func InboundOK(sp *SAMLServiceProvider) bool {
+//@   return SPValid(sp) && sp.IDPCertificateStore != nil
+//@ }
+//@ pure func AllAssertionsValidated(sp *SAMLServiceProvider, r *types.Response) bool {
+//@   return forall k int :: 0 <= k && k < len(r.Assertions) ==>
+//@       r.Assertions[k].SignatureValidated && Verified(r.Assertions[k].$src, sp.IDPCertificateStore, sp.Clock)
+//@ }
+//@ pure func AllMatchesSigned(sp *SAMLServiceProvider, root *etree.Element, n int) bool {
+//@   return forall j int :: 0 <= j && j < n ==>
+//@       sigState(detachOf(MatchAt(root, SAMLAssertionNamespace, AssertionTag, j)), sp.IDPCertificateStore, sp.Clock) == 1
+//@ }
+
+//@ func (sp *SAMLServiceProvider) ValidateEncodedResponse(encodedResponse string) (res *types.Response, err error)
+//@   requires InboundOK(sp)
+//@   safety [C09]
+//@   fresh [C17] res when err == nil
+//@   ensures [C09] xor: (res != nil) != (err != nil)
+//@   ensures [C03] profile: err == nil ==> ProfileOK(sp, res)
+//@   ensures [C04] skip.response: err == nil && sp.SkipSignatureValidation ==> !res.SignatureValidated
+//@   ensures [C04] skip.assertions: err == nil && sp.SkipSignatureValidation ==>
+//@        forall k int :: 0 <= k && k < len(res.Assertions) ==> !res.Assertions[k].SignatureValidated
+//@   ensures [C01, C04] signed.verified: err == nil && !sp.SkipSignatureValidation && res.SignatureValidated ==>
+//@        Verified(res.$src, sp.IDPCertificateStore, sp.Clock)
+//@   ensures [C01, C02, C04] signed.root: err == nil && !sp.SkipSignatureValidation && res.SignatureValidated ==>
+//@        sigState(validatedFrom(res.$src), sp.IDPCertificateStore, sp.Clock) == 1
+//@   ensures [C01, C02] unsigned.root: err == nil && !sp.SkipSignatureValidation && !res.SignatureValidated ==>
+//@        sigState(res.$src, sp.IDPCertificateStore, sp.Clock) == 0
+//@   ensures [C01, C04] unsigned.assertions: err == nil && !sp.SkipSignatureValidation && !res.SignatureValidated ==>
+//@        AllAssertionsValidated(sp, res)
+//@   ensures [C01, C02] unsigned.allsigned: err == nil && !sp.SkipSignatureValidation && !res.SignatureValidated ==>
+//@        AllMatchesSigned(sp, res.$src, NMatch(res.$src, SAMLAssertionNamespace, AssertionTag))
+//@   iter 0
+//@     invariant [C01, C04] validated: AllAssertionsValidated(sp, decodedResponse)
+//@     invariant [C01, C02] allsigned: AllMatchesSigned(sp, unverifiedResponse, $k)
+//@     invariant [C04] flag: !decodedResponse.SignatureValidated
+//@     invariant [C01] src: decodedResponse.$src == unverifiedResponse
+//@     visit [C01] direct: old($m.parent) == unverifiedResponse
+
+//@ func (sp *SAMLServiceProvider) ValidateEncodedLogoutResponsePOST(encodedResponse string) (res *types.LogoutResponse, err error)
+//@   requires InboundOK(sp)
+//@   safety [C09]
+//@   fresh [C17] res when err == nil
+//@   ensures [C09] xor: (res != nil) != (err != nil)
+//@   ensures [C10] checks: err == nil ==> LogoutRespOK(sp, res)
+//@   ensures [C04, C10] skip: err == nil && sp.SkipSignatureValidation ==> !res.SignatureValidated
+//@   ensures [C04, C10] flag.verified: err == nil && res.SignatureValidated ==> Verified(res.$src, sp.IDPCertificateStore, sp.Clock)
+//@   ensures [C02, C04, C10] flag.good: err == nil && res.SignatureValidated ==> sigState(validatedFrom(res.$src), sp.IDPCertificateStore, sp.Clock) == 1
+//@   ensures [C02, C04, C10] flag.missing: err == nil && !sp.SkipSignatureValidation && !res.SignatureValidated ==> sigState(res.$src, sp.IDPCertificateStore, sp.Clock) == 0
+
+//@ func (sp *SAMLServiceProvider) ValidateEncodedLogoutRequestPOST(encodedRequest string) (res *LogoutRequest, err error)
+//@   requires InboundOK(sp)
+//@   safety [C09]
+//@   fresh [C17] res when err == nil
+//@   ensures [C09] xor: (res != nil) != (err != nil)
+//@   ensures [C10] checks: err == nil ==> LogoutReqOK(sp, res)
+//@   ensures [C04, C10] skip: err == nil && sp.SkipSignatureValidation ==> !res.SignatureValidated
+//@   ensures [C04, C10] flag.verified: err == nil && res.SignatureValidated ==> Verified(res.$src, sp.IDPCertificateStore, sp.Clock)
+//@   ensures [C02, C04, C10] flag.good: err == nil && res.SignatureValidated ==> sigState(validatedFrom(res.$src), sp.IDPCertificateStore, sp.Clock) == 1
+//@   ensures [C02, C04, C10] flag.missing: err == nil && !sp.SkipSignatureValidation && !res.SignatureValidated ==> sigState(res.$src, sp.IDPCertificateStore, sp.Clock) == 0
+
+//@ func DecodeUnverifiedBaseResponse(encodedResponse string) (res *types.UnverifiedBaseResponse, err error)
+//@   safety [C09]
+//@   ensures [C09] xor: (res != nil) != (err != nil)
+
+//@ func DecodeUnverifiedLogoutResponse(encodedResponse string) (res *types.LogoutResponse, err error)
+//@   safety [C09]
+//@   ensures [C09] xor: (res != nil) != (err != nil)
+
+//@ func (sp *SAMLServiceProvider) RetrieveAssertionInfo(encodedResponse string) (info *AssertionInfo, err error)
+//@   requires InboundOK(sp)
+//@   safety [C09]
+//@   ensures [C09] xor: (info != nil) != (err != nil)
+//@   ensures [C04] skip: err == nil && sp.SkipSignatureValidation ==> !info.ResponseSignatureValidated
+//@   ensures [C01, C04] unsigned: err == nil && !sp.SkipSignatureValidation && !info.ResponseSignatureValidated ==>
+//@        forall k int :: 0 <= k && k < len(info.Assertions) ==>
+//@            info.Assertions[k].SignatureValidated && Verified(info.Assertions[k].$src, sp.IDPCertificateStore, sp.Clock)
+//@   exit [C04] mirror: err == nil ==> assertionInfo.ResponseSignatureValidated == response.SignatureValidated
+//@   exit [C01, C08] assertions: err == nil ==> assertionInfo.Assertions == response.Assertions
+//@   exit [C03] profile: err == nil ==> ProfileOK(sp, response)
+//@   exit [C06] warnings: err == nil ==> assertionInfo.WarningInfo == warningInfo
+//@   exit [C08] nameid: err == nil ==> assertionInfo.NameID == response.Assertions[0].Subject.NameID.Value
+//@   exit [C08] session: err == nil && response.Assertions[0].AuthnStatement != nil ==>
+//@        assertionInfo.SessionIndex == response.Assertions[0].AuthnStatement.SessionIndex
+//@        && assertionInfo.AuthnInstant == response.Assertions[0].AuthnStatement.AuthnInstant
+//@        && assertionInfo.SessionNotOnOrAfter == response.Assertions[0].AuthnStatement.SessionNotOnOrAfter
